@@ -52,7 +52,9 @@ DATETIMES = [f"datetime(2020,1,2,3,4,5,{us}{',' if off else ''}{off})" for off i
 TIMES = ["time(0,0)", "time(3,4,5)", "time(23,59,59)", "time(3,4,5,678000)", "time(3,4,5,1000)", "time(12,0)"]
 TIMEDELTAS = ["timedelta(0)", "timedelta(microseconds=1)", "timedelta(microseconds=-1)", "timedelta(seconds=1)",
               "timedelta(seconds=-1)", "timedelta(days=-1, seconds=5)", "timedelta(days=400)", "timedelta(hours=36, minutes=1)",
-              "timedelta(days=1, microseconds=500000)", "timedelta(seconds=59.5)", "timedelta(days=-400, microseconds=1)"]
+              "timedelta(days=1, microseconds=500000)", "timedelta(seconds=59.5)", "timedelta(days=-400, microseconds=1)",
+              "timedelta(days=212942, seconds=61123, microseconds=852397)", "timedelta(days=-200000, microseconds=3)",
+              "timedelta(days=999999, hours=23, minutes=59, seconds=59, microseconds=999999)", "timedelta(days=104250, microseconds=1)"]
 UUIDS = ["UUID1", "UUID(int=0)", "UUID('ffffffff-ffff-ffff-ffff-ffffffffffff')"]
 COLORS = ["Color.RED", "Color.GREEN"]
 NUMS = ["Num.ONE", "Num.TWO"]
